@@ -576,10 +576,11 @@ class HarnessErrorInWorld(Exception):
 
 
 class _Refusal(Exception):
-    def __init__(self, stage, error):
+    def __init__(self, stage, error, classes=()):
         super().__init__(stage)
         self.stage = stage
         self.error = error
+        self.classes = list(classes)  # the names of the exception's classes, most derived first
 
 
 class _Stage:
@@ -604,7 +605,7 @@ class _Stage:
                 raise HarnessError(f"{self.name}: {exc_type.__name__}: {exc}") from exc
             if isinstance(exc, HarnessError):
                 return False
-            raise _Refusal(self.name, f"{exc_type.__name__}: {exc}") from exc
+            raise _Refusal(self.name, f"{exc_type.__name__}: {exc}", [c.__name__ for c in exc_type.__mro__]) from exc
         return False
 
 
@@ -792,15 +793,25 @@ def run_world(case):
                     psbt = psbt.to_v2()
 
         with _Stage("update_output"):
+            # (a funded psbt may hold a change output anywhere: the payments are the other outputs, in order)
+            change_at = result.get("funded", {}).get("change_index")
+            positions = [k for k in range(len(psbt.outputs)) if k != change_at]
             for o, (tx_out, desc) in enumerate(zip(outputs, out_descs, strict=True)):
                 if desc is not None:
-                    psbt = desc.update_psbt_output(psbt, o, tx_out["index"])
+                    psbt = desc.update_psbt_output(psbt, positions[o], tx_out["index"])
             unsigned = hand_off(psbt)
             result["unsigned_psbt_b64"] = unsigned.b64encode()
 
         try:
             result["estimated_weight"] = unsigned.weight_estimate(sizer)
         except Exception as e:  # noqa: BLE001  not fatal for the spend itself: reported
+            from btclib.exceptions import BTClibRuntimeError, BTClibTypeError, BTClibValueError
+            from vlib.runner import HarnessError, _through_btclib
+
+            if isinstance(e, (HarnessError, HarnessErrorInWorld)):
+                raise HarnessError(f"estimate: {e}") from e
+            if not isinstance(e, (BTClibValueError, BTClibTypeError, BTClibRuntimeError)) and _through_btclib(e.__traceback__) is None:
+                raise HarnessError(f"estimate: {type(e).__name__}: {e}") from e  # the sizer callback is harness code
             result["estimated_weight"] = None
             result["estimate_error"] = f"{type(e).__name__}: {e}"
             notes.append(f"estimate refused: {type(e).__name__}: {e}")
@@ -858,7 +869,7 @@ def run_world(case):
             signed_tx = extract_tx(final)
             result["tx_hex"] = signed_tx.serialize(include_witness=True).hex()
     except _Refusal as refusal:
-        result.update({"ok": False, "stage": refusal.stage, "error": refusal.error})
+        result.update({"ok": False, "stage": refusal.stage, "error": refusal.error, "error_classes": refusal.classes})
         return result
     result["ok"] = True
     return result
